@@ -133,8 +133,8 @@ impl CasObject {
             final(reader).bytes() == old(reader).bytes(),
             r matches Ok(cas) ==> {
                 &&& spec_footer(old(reader).bytes()) == Some(cas)
-                // `CasObjectInfoV1::deserialize` (under contract below: info_tables_ok) produces `info`, which is passed through unchanged
-                &&& footer_tables_ok(cas)
+                // `CasObjectInfoV1::deserialize` (under contract below: info_tables_ok, info_wire_ok) produces `info`, which is passed through unchanged
+                &&& footer_tables_ok(cas) && info_wire_ok(cas.info)
                 // `seek(End(-(4 + info_length)))` succeeded
                 &&& cas.info_length + 4 <= old(reader).bytes().len()
                 // exactly info_length bytes were then parsed (`total_bytes_read != info_length` is an error), at least ident + version
@@ -178,6 +178,21 @@ spec fn info_tables_ok(s: CasObjectInfoV1) -> bool {
     &&& s.chunk_boundary_offsets@.len() == s.num_chunks
     &&& (s.boundaries_version == CAS_OBJECT_FORMAT_BOUNDARIES_VERSION ==> s.unpacked_chunk_offsets@.len() == s.num_chunks)
 }
+// every ident / version field of a parsed footer equals its format constant ("any footer it relied on")
+spec fn info_idents_ok(s: CasObjectInfoV1) -> bool {
+    &&& s.ident == CAS_OBJECT_FORMAT_IDENT && s.version == CAS_OBJECT_FORMAT_VERSION
+    &&& s.ident_hash_section == CAS_OBJECT_FORMAT_IDENT_HASHES && s.hashes_version == CAS_OBJECT_FORMAT_HASHES_VERSION
+    &&& s.ident_boundary_section == CAS_OBJECT_FORMAT_IDENT_BOUNDARIES
+}
+// an in-memory info converted from a version-0 wire footer (from_v0): no unpacked table, marked by boundaries version 0
+spec fn info_is_v0_converted(s: CasObjectInfoV1) -> bool {
+    s.boundaries_version == CAS_OBJECT_FORMAT_BOUNDARIES_VERSION_NO_UNPACKED_INFO && s.unpacked_chunk_offsets@.len() == 0
+}
+// what the wire parser may return: all idents/versions are the constants; the boundaries section is version 1 -- the only other
+// possibility is the v0 conversion, which has no unpacked table at all
+spec fn info_wire_ok(s: CasObjectInfoV1) -> bool {
+    info_idents_ok(s) && (s.boundaries_version == CAS_OBJECT_FORMAT_BOUNDARIES_VERSION || info_is_v0_converted(s))
+}
 spec fn info_v0_tables_ok(s: CasObjectInfoV0) -> bool {
     s.chunk_hashes@.len() == s.num_chunks && s.chunk_boundary_offsets@.len() == s.num_chunks
 }
@@ -186,6 +201,8 @@ impl CasObjectInfoV0 {
     #[verifier::external_body]
     fn deserialize_v0<R: Read>(reader: &mut R) -> (r: Result<(Self, u32), CasObjectError>)
         ensures r matches Ok((s, _)) ==> info_v0_tables_ok(s) && final(reader).nread() == old(reader).nread() + 52 + 36 * s.num_chunks
+            // (the struct is built with `ident: CAS_OBJECT_FORMAT_IDENT`, cas_object_format.rs:197)
+            && s.ident == CAS_OBJECT_FORMAT_IDENT
     { unimplemented!() }
 }
 // bounded allocation: `Vec::reserve` requests go through this stub, whose precondition is the allocation cap of C08
@@ -211,7 +228,10 @@ impl CasObjectInfoV1 {
     #[verifier::external_body]
     fn from_v0(src: CasObjectInfoV0) -> (r: Self)
         ensures r.chunk_hashes@ == src.chunk_hashes@, r.chunk_boundary_offsets@ == src.chunk_boundary_offsets@, r.num_chunks == src.num_chunks,
-            r.unpacked_chunk_offsets@.len() == 0, r.boundaries_version == CAS_OBJECT_FORMAT_BOUNDARIES_VERSION_NO_UNPACKED_INFO
+            r.unpacked_chunk_offsets@.len() == 0, r.boundaries_version == CAS_OBJECT_FORMAT_BOUNDARIES_VERSION_NO_UNPACKED_INFO,
+            // (struct literal of from_v0: ident copied, the other ident/version fields are the constants)
+            r.ident == src.ident, r.version == CAS_OBJECT_FORMAT_VERSION, r.ident_hash_section == CAS_OBJECT_FORMAT_IDENT_HASHES,
+            r.hashes_version == CAS_OBJECT_FORMAT_HASHES_VERSION, r.ident_boundary_section == CAS_OBJECT_FORMAT_IDENT_BOUNDARIES,
     { unimplemented!() }
 
 //@ extract cas_object/src/cas_object_format.rs in `impl CasObjectInfoV1` fn deserialize
@@ -226,20 +246,27 @@ impl CasObjectInfoV1 {
             final(reader).bytes() == old(reader).bytes(),
             // whatever the bytes: an accepted footer has tables of exactly num_chunks entries (the unpacked table only in boundaries version 1)
             /*@C08*/ ret matches Ok((s, n)) ==> info_tables_ok(s),
+            // ... and every ident / version field equals its constant; boundaries version is 1 unless this is the v0 conversion
+            /*@C08*/ ret matches Ok((s, n)) ==> info_wire_ok(s),
 //@ loop 1
             invariant
                 reader.bytes() == old(reader).bytes(),
+                s.ident == CAS_OBJECT_FORMAT_IDENT, s.version == CAS_OBJECT_FORMAT_VERSION, s.ident_hash_section == CAS_OBJECT_FORMAT_IDENT_HASHES, s.hashes_version == CAS_OBJECT_FORMAT_HASHES_VERSION,
                 s.chunk_hashes@.len() == vx_u, s.chunk_boundary_offsets@.len() == 0, s.unpacked_chunk_offsets@.len() == 0,
                 r.n == hash_section_begin_byte_offset + 12 + 32 * vx_u, hash_section_begin_byte_offset == 40,
 //@ loop 2
             invariant
                 reader.bytes() == old(reader).bytes(),
+                s.ident == CAS_OBJECT_FORMAT_IDENT, s.version == CAS_OBJECT_FORMAT_VERSION, s.ident_hash_section == CAS_OBJECT_FORMAT_IDENT_HASHES, s.hashes_version == CAS_OBJECT_FORMAT_HASHES_VERSION,
+                s.ident_boundary_section == CAS_OBJECT_FORMAT_IDENT_BOUNDARIES, s.boundaries_version == CAS_OBJECT_FORMAT_BOUNDARIES_VERSION,
                 s.chunk_hashes@.len() == num_chunks_2, num_chunks_2 == num_chunks_3, s.chunk_boundary_offsets@.len() == vx_u, s.unpacked_chunk_offsets@.len() == 0,
                 hash_section_begin_byte_offset == 40, boundary_section_begin_byte_offset == 52 + 32 * num_chunks_2,
                 r.n == boundary_section_begin_byte_offset + 12 + 4 * vx_u,
 //@ loop 3
             invariant
                 reader.bytes() == old(reader).bytes(),
+                s.ident == CAS_OBJECT_FORMAT_IDENT, s.version == CAS_OBJECT_FORMAT_VERSION, s.ident_hash_section == CAS_OBJECT_FORMAT_IDENT_HASHES, s.hashes_version == CAS_OBJECT_FORMAT_HASHES_VERSION,
+                s.ident_boundary_section == CAS_OBJECT_FORMAT_IDENT_BOUNDARIES, s.boundaries_version == CAS_OBJECT_FORMAT_BOUNDARIES_VERSION,
                 s.chunk_hashes@.len() == num_chunks_2, num_chunks_2 == num_chunks_3, s.chunk_boundary_offsets@.len() == num_chunks_3, s.unpacked_chunk_offsets@.len() == vx_u,
                 hash_section_begin_byte_offset == 40, boundary_section_begin_byte_offset == 52 + 32 * num_chunks_2,
                 r.n == boundary_section_begin_byte_offset + 12 + 4 * num_chunks_3 + 4 * vx_u,
@@ -321,6 +348,11 @@ impl CasObject {
                 let n = cas.info.num_chunks as int;
                 &&& /*@C08*/ spec_footer(b) == Some(cas) && footer_tables_ok(cas)
                 &&& /*@C08*/ forall|idx: int| 0 <= idx < n ==> cas.chunk_consistent(b, idx)
+                // the footer relied on is a well-formed wire footer; unless it is the v0 conversion (which has no unpacked table), its
+                // unpacked offsets agree with the decoded chunk lengths -- unconditionally, not "if the footer says version 1"
+                &&& /*@C08*/ info_wire_ok(cas.info)
+                &&& /*@C08*/ !info_is_v0_converted(cas.info) ==> cas.info.unpacked_chunk_offsets@.len() == n
+                        && forall|idx: int| 0 <= idx < n ==> cas.info.unpacked_chunk_offsets@[idx] == cas.unpacked_sum(b, idx + 1)
                 // the footer begins right after the last chunk, and is followed only by its 4-byte length
                 &&& /*@C08*/ cas.chunk_start(n) + cas.info_length + 4 == b.len()
                 // there is at least one chunk, and decoding the last chunk stopped exactly where the footer begins
@@ -334,13 +366,14 @@ impl CasObject {
             invariant
                 reader.bytes() == b, b == old(reader).bytes(),
                 b.len() + MAX_3BYTE <= u32::MAX,
-                spec_footer(b) == Some(cas), footer_tables_ok(cas), cas.info_length + 4 <= b.len(), cas.info_length >= 8,
+                spec_footer(b) == Some(cas), footer_tables_ok(cas), info_wire_ok(cas.info), cas.info_length + 4 <= b.len(), cas.info_length >= 8,
                 reader.pos() <= b.len(),
                 reader.pos() == (if idx == 0 { (b.len() - 4) as nat } else { spec_chunk_end(b, cas.chunk_start(idx as int - 1)) }),
                 hash_chunks@.len() == idx,
                 cumulative_compressed_length == start_offset, start_offset == cas.chunk_start(idx as int),
                 unpacked_chunk_offset == cas.unpacked_sum(b, idx as int),
                 forall|j: int| 0 <= j < idx ==> cas.chunk_consistent(b, j),
+                cas.info.boundaries_version == CAS_OBJECT_FORMAT_BOUNDARIES_VERSION ==> forall|j: int| 0 <= j < idx ==> cas.info.unpacked_chunk_offsets@[j] == cas.unpacked_sum(b, j + 1),
                 chunk_pairs(hash_chunks@) =~= cas.decoded_list(b, idx as int),
 //@ before `let chunk_hash`
             let ghost hc0 = hash_chunks@;
